@@ -1,6 +1,7 @@
 import CarModel.Traversal
 import CarModel.Proofs.V2
 import CarModel.Proofs.IndexGen
+import CarModel.Proofs.RootRoundtrip
 /-
 C15 — Traversal writers emit exactly the visited blocks, once, with correct sizes.
 `loads` is the (arbitrary) sequence of block loads the traversal engine performs.
@@ -100,6 +101,19 @@ theorem selectiveV2_reads_back (H : HashFn) (ro : ReadOpts) (seek : Bool) (dp ip
     scanBlockReader H ro seek (selectiveV2 dp ip roots get loads withIndex index)
       = .ok ⟨roots, emitted get loads, .eof⟩ :=
   scanBlockReader_v2 H ro seek dp ip (some roots) (emitted get loads) withIndex false index ok h10 lok
+
+/-- (5a) The CARv1 the traversal writers emit (`TraverseV1`, the root module's `SelectiveCar.Write` /
+    `Dump`, `WriteCar`) reads back, through the v2 block reader and through the root module's own reader,
+    as the given roots and exactly the emitted blocks: every loaded block once, in first-visit order. -/
+theorem selectiveV1_reads_back (H : HashFn) (ro : ReadOpts) (seek : Bool) (roots : List Cid)
+    (get : Cid → Bytes) (loads : List Cid)
+    (ok : PayloadOK H ro (some roots) (emitted get loads))
+    (hmax : (encodeHeaderBody ⟨some roots, 1⟩).length ≤ rootMaxSection)
+    (hok : ∀ b ∈ emitted get loads, b.rootOk ∧ checkBlock H false b = .ok ()) :
+    scanBlockReader H ro seek (teeOutput roots get loads) = .ok ⟨roots, emitted get loads, .eof⟩ ∧
+    scanRoot H false (teeOutput roots get loads) = .ok ⟨roots, emitted get loads, .eof⟩ :=
+  ⟨scanBlockReader_v1 H ro seek (some roots) (emitted get loads) ok,
+   scanRoot_payload H false (some roots) (emitted get loads) ok.hdr hmax (by intro h; cases h) hok⟩
 
 /-- Non-vacuity / sanity: a diamond-shaped load sequence a,b,d,c,d emits a,b,d,c. -/
 example : dedupFirst [⟨1, 0, 0, [1]⟩, ⟨1, 0, 0, [2]⟩, ⟨1, 0, 0, [4]⟩, ⟨1, 0, 0, [3]⟩, ⟨1, 0, 0, [4]⟩]
